@@ -34,6 +34,26 @@ func sortedSC(m map[types.SiacoinOutputID]types.SiacoinElement) []types.SiacoinE
 	return out
 }
 
+type ucOwner struct {
+	uc  types.UnlockConditions
+	key int // -1: no signature needed
+}
+
+var specialUCs = map[types.Address]ucOwner{}
+
+// ucFor returns the unlock conditions (and signing key) for a v1 address of the wallet, incl. timelocked / anyone
+func (c *lchain) ucFor(a types.Address) (types.UnlockConditions, int, bool) {
+	if o, ok := specialUCs[a]; ok {
+		return o.uc, o.key, true
+	}
+	for k := range c.keys {
+		if a == c.addr1(k) {
+			return c.uc(k), k, true
+		}
+	}
+	return types.UnlockConditions{}, 0, false
+}
+
 // keyOf returns which wallet key controls an address, and whether it is a v1 (unlock conditions) address
 func (c *lchain) keyOf(a types.Address) (int, bool, bool) {
 	for k := range c.keys {
@@ -71,6 +91,9 @@ func (c *lchain) signV1(txn *types.Transaction, keyFor map[types.Hash256]int, pa
 	txn.Signatures = nil
 	var ids []types.Hash256
 	for _, in := range txn.SiacoinInputs {
+		if in.UnlockConditions.SignaturesRequired == 0 {
+			continue
+		}
 		ids = append(ids, types.Hash256(in.ParentID))
 	}
 	for _, in := range txn.SiafundInputs {
@@ -146,10 +169,72 @@ func (p *blockPlan) v1Pay() bool {
 	if c.child() >= c.n.HardforkV2.AllowHeight && c.r.rng.IntN(2) == 0 {
 		// move funds to a v2 (policy) address
 		txn.SiacoinOutputs[0].Address = c.addr2(to)
+	} else {
+		switch c.r.rng.IntN(6) {
+		case 0: // anyone-can-spend (no signatures required)
+			uc := types.UnlockConditions{}
+			specialUCs[uc.UnlockHash()] = ucOwner{uc, -1}
+			txn.SiacoinOutputs[0].Address = uc.UnlockHash()
+		case 1: // timelocked conditions
+			uc := c.uc(to)
+			uc.Timelock = c.child() + uint64(1+c.r.rng.IntN(3))
+			specialUCs[uc.UnlockHash()] = ucOwner{uc, to}
+			txn.SiacoinOutputs[0].Address = uc.UnlockHash()
+		}
 	}
 	c.signV1(&txn, keyFor, c.r.rng.IntN(4) == 0)
 	p.txns = append(p.txns, txn)
 	return true
+}
+
+// v1SpendSpecial spends an output held under anyone-can-spend or (expired) timelocked conditions
+func (p *blockPlan) v1SpendSpecial() bool {
+	c := p.c
+	for _, e := range sortedSC(c.st().sces) {
+		o, ok := specialUCs[e.SiacoinOutput.Address]
+		if !ok || p.usedSC[e.ID] || e.MaturityHeight > c.child() || o.uc.Timelock > c.child() || e.SiacoinOutput.Value.IsZero() {
+			continue
+		}
+		p.usedSC[e.ID] = true
+		txn := types.Transaction{SiacoinInputs: []types.SiacoinInput{{ParentID: e.ID, UnlockConditions: o.uc}}, SiacoinOutputs: []types.SiacoinOutput{{Value: e.SiacoinOutput.Value, Address: c.addr1(0)}}}
+		if o.key >= 0 {
+			c.signV1(&txn, map[types.Hash256]int{types.Hash256(e.ID): o.key}, false)
+		}
+		p.txns = append(p.txns, txn)
+		return true
+	}
+	return false
+}
+
+// v1ReviseTwice revises one contract in two transactions of the same block
+func (p *blockPlan) v1ReviseTwice() bool {
+	c := p.c
+	var ids []types.FileContractID
+	for id := range c.st().fces {
+		ids = append(ids, id)
+	}
+	sort.Slice(ids, func(i, j int) bool { return string(ids[i][:]) < string(ids[j][:]) })
+	for _, id := range ids {
+		e := c.st().fces[id]
+		k, _, ok := c.keyOf(e.FileContract.UnlockHash)
+		if !ok || p.usedFC[id] || e.FileContract.WindowStart < c.child() || e.FileContract.RevisionNumber > 1<<60 {
+			continue
+		}
+		p.usedFC[id] = true
+		rev := e.FileContract
+		for n := 0; n < 2; n++ {
+			rev.RevisionNumber += 1 + c.r.rng.Uint64N(3)
+			rev.ValidProofOutputs = append([]types.SiacoinOutput(nil), rev.ValidProofOutputs...)
+			d := rev.ValidProofOutputs[0].Value.Div64(5)
+			rev.ValidProofOutputs[0].Value = rev.ValidProofOutputs[0].Value.Sub(d)
+			rev.ValidProofOutputs[1].Value = rev.ValidProofOutputs[1].Value.Add(d)
+			txn := types.Transaction{FileContractRevisions: []types.FileContractRevision{{ParentID: id, UnlockConditions: c.uc(k), FileContract: rev}}}
+			c.signV1(&txn, map[types.Hash256]int{types.Hash256(id): k}, false)
+			p.txns = append(p.txns, txn)
+		}
+		return true
+	}
+	return false
 }
 
 func (p *blockPlan) v1Form() bool {
@@ -317,8 +402,36 @@ func (c *lchain) policyFor(k int, kind int) types.SpendPolicy {
 		return types.PolicyThreshold(2, []types.SpendPolicy{pk, types.PolicyHash(h)})
 	case 3:
 		return types.PolicyThreshold(1, []types.SpendPolicy{types.PolicyAfter(time.Unix(100, 0)), pk})
+	case 4: // spendable only from a later height (compared with the parent block's height)
+		return types.PolicyThreshold(2, []types.SpendPolicy{pk, types.PolicyAbove(c.child() + uint64(1+c.r.rng.IntN(3)))})
+	case 5: // spendable only after a time (compared with the median timestamp)
+		return types.PolicyThreshold(2, []types.SpendPolicy{pk, types.PolicyAfter(c.ts.Add(time.Duration(200+c.r.rng.IntN(3000)) * time.Second))})
 	}
 	return pk
+}
+
+// policyUnlocked: do the height/time locks of a wallet policy allow spending in the child block?
+func (c *lchain) policyUnlocked(p types.SpendPolicy) bool {
+	th, ok := p.Type.(types.PolicyTypeThreshold)
+	if !ok {
+		return true
+	}
+	if int(th.N) < len(th.Of) {
+		return true // the lock can be left opaque
+	}
+	for _, sp := range th.Of {
+		switch x := sp.Type.(type) {
+		case types.PolicyTypeAbove:
+			if c.cs().Index.Height < uint64(x) {
+				return false
+			}
+		case types.PolicyTypeAfter:
+			if !time.Unix(medianSeconds(c.cs()), 0).After(time.Time(x)) {
+				return false
+			}
+		}
+	}
+	return true
 }
 
 // satisfy produces the satisfied form of a policy created by policyFor (revealing what is needed, rest opaque)
@@ -347,8 +460,12 @@ func (c *lchain) satisfy(p types.SpendPolicy, k int, sigHash types.Hash256) type
 					need--
 					continue
 				}
-			case types.PolicyTypeAbove:
-				if need > 0 {
+			case types.PolicyTypeAbove, types.PolicyTypeAfter:
+				if need > 0 && int(pt.N) == len(pt.Of) {
+					need--
+					continue
+				}
+				if _, isAbove := x.(types.PolicyTypeAbove); isAbove && need > 0 {
 					need--
 					continue
 				}
@@ -370,6 +487,9 @@ type v2owner struct {
 func (c *lchain) ownerOf(a types.Address, policies map[types.Address]v2owner) (v2owner, bool) {
 	if o, ok := policies[a]; ok {
 		return o, true
+	}
+	if o, ok := specialUCs[a]; ok && o.key >= 0 && o.uc.Timelock <= c.cs().Index.Height {
+		return v2owner{types.SpendPolicy{Type: types.PolicyTypeUnlockConditions(o.uc)}, o.key}, true
 	}
 	for k := range c.keys {
 		if a == c.addr1(k) {
@@ -416,7 +536,7 @@ func (p *blockPlan) pickV2(min types.Currency) (types.SiacoinElement, v2owner, b
 	for i := range es {
 		e := es[(start+i)%len(es)]
 		o, ok := c.ownerOf(e.SiacoinOutput.Address, v2policies)
-		if !ok || p.usedSC[e.ID] || e.MaturityHeight > c.child() || e.SiacoinOutput.Value.Cmp(min) < 0 {
+		if !ok || p.usedSC[e.ID] || e.MaturityHeight > c.child() || e.SiacoinOutput.Value.Cmp(min) < 0 || !c.policyUnlocked(o.policy) {
 			continue
 		}
 		p.usedSC[e.ID] = true
@@ -435,7 +555,7 @@ func (p *blockPlan) v2Pay() bool {
 	v := in.SiacoinOutput.Value.Sub(fee)
 	a := v.Div64(uint64(2 + c.r.rng.IntN(3)))
 	k := c.r.rng.IntN(3)
-	pol := c.policyFor(k, c.r.rng.IntN(4))
+	pol := c.policyFor(k, c.r.rng.IntN(6))
 	v2policies[pol.Address()] = v2owner{pol, k}
 	txn := types.V2Transaction{SiacoinInputs: []types.V2SiacoinInput{{Parent: in}},
 		SiacoinOutputs: []types.SiacoinOutput{{Value: a, Address: pol.Address()}, {Value: v.Sub(a), Address: c.addr2(o.key % 3)}}, MinerFee: fee}
@@ -443,7 +563,7 @@ func (p *blockPlan) v2Pay() bool {
 	c.signV2Inputs(&txn, owners, nil)
 	p.v2txns = append(p.v2txns, txn)
 	// ephemeral follow-up: spend the first output in the same block
-	if c.r.rng.IntN(3) == 0 {
+	if c.r.rng.IntN(3) == 0 && c.policyUnlocked(pol) {
 		txid := txn.ID()
 		par := types.SiacoinElement{ID: txn.SiacoinOutputID(txid, 0), SiacoinOutput: txn.SiacoinOutputs[0], StateElement: types.StateElement{LeafIndex: types.UnassignedLeafIndex}}
 		t2 := types.V2Transaction{SiacoinInputs: []types.V2SiacoinInput{{Parent: par}}, SiacoinOutputs: []types.SiacoinOutput{{Value: a, Address: c.addr2(k)}}}
@@ -486,7 +606,7 @@ func (p *blockPlan) v2Form() bool {
 	if !ok {
 		return false
 	}
-	size := []int{0, 1, 64, 65, 128, 129, 200, 256, 1000}[c.r.rng.IntN(9)]
+	size := []int{0, 1, 64, 65, 129, 191, 257, 321, 385, 449, 577, 700, 1000}[c.r.rng.IntN(13)]
 	data := make([]byte, size)
 	c.r.fillBytes(data)
 	rk, hk := c.r.rng.IntN(3), c.r.rng.IntN(3)
@@ -551,6 +671,33 @@ func (p *blockPlan) v2Revise() bool {
 		}
 		c.signContract(&rev, rk, hk)
 		p.v2txns = append(p.v2txns, types.V2Transaction{FileContractRevisions: []types.V2FileContractRevision{{Parent: e.Copy(), Revision: rev}}})
+		return true
+	}
+	return false
+}
+
+// v2ReviseTwice: two revisions of one contract in one block; the first hands the renter key over,
+// so the second must be signed by the new key (the contract as it currently stands)
+func (p *blockPlan) v2ReviseTwice() bool {
+	c := p.c
+	for _, e := range p.sortedV2() {
+		fc := e.V2FileContract
+		if p.usedFC[e.ID] || fc.ProofHeight < c.child() || fc.RevisionNumber > 1<<60 {
+			continue
+		}
+		p.usedFC[e.ID] = true
+		rk, hk := c.keyIdx(fc.RenterPublicKey), c.keyIdx(fc.HostPublicKey)
+		nk := (rk + 1) % 3
+		rev1 := fc
+		rev1.RevisionNumber++
+		rev1.RenterPublicKey = c.keys[nk].PublicKey()
+		c.signContract(&rev1, rk, hk)
+		rev2 := rev1
+		rev2.RevisionNumber++
+		c.signContract(&rev2, nk, hk)
+		p.v2txns = append(p.v2txns,
+			types.V2Transaction{FileContractRevisions: []types.V2FileContractRevision{{Parent: e.Copy(), Revision: rev1}}},
+			types.V2Transaction{FileContractRevisions: []types.V2FileContractRevision{{Parent: e.Copy(), Revision: rev2}}})
 		return true
 	}
 	return false
@@ -660,7 +807,11 @@ func (c *lchain) honestBlock() (types.Block, consensus.V1BlockSupplement) {
 	n := c.r.rng.IntN(5)
 	for i := 0; i < n; i++ {
 		if v1ok && (!v2ok || c.r.rng.IntN(2) == 0) {
-			switch c.r.rng.IntN(7) {
+			switch c.r.rng.IntN(9) {
+			case 7:
+				p.v1SpendSpecial()
+			case 8:
+				p.v1ReviseTwice()
 			case 0, 1:
 				p.v1Pay()
 			case 2:
@@ -675,7 +826,9 @@ func (c *lchain) honestBlock() (types.Block, consensus.V1BlockSupplement) {
 				p.v1Foundation()
 			}
 		} else if v2ok {
-			switch c.r.rng.IntN(9) {
+			switch c.r.rng.IntN(10) {
+			case 9:
+				p.v2ReviseTwice()
 			case 0, 1:
 				p.v2Pay()
 			case 2:
